@@ -52,11 +52,8 @@ func (s *c15State) wit(q string) c15Witness {
 }
 
 func (s *c15State) fail(sig, msg, q string) {
-	if s.env.Nodes > 1 {
-		sig = "cluster:" + sig
-	}
 	s.failed = true
-	s.r.Fail(sig, s.id, msg, s.wit(q))
+	esrvFail(s.r, sig, s.id, msg, s.wit(q))
 }
 
 func (s *c15State) mark(field, kind string) {
@@ -82,8 +79,28 @@ func (s *c15State) exprSig(n *qNode, count bool) string {
 	if count {
 		suffix = "/count"
 	}
+	if s.env.Nodes > 1 {
+		fwd, nostd := false, false
+		n.walk(func(x *qNode) {
+			if x.Kind == "rowint" && (x.Op == "between" || x.Op == "notnull") {
+				fwd = true
+			}
+			if f := s.m.Fields[x.Field]; f != nil && f.Type == "time" && f.NoStd {
+				nostd = true
+			}
+		})
+		if fwd {
+			return "cluster-forwarded-between-or-notnull" + suffix
+		}
+		if nostd {
+			return "cluster-time-nostandard" + suffix
+		}
+	}
 	if s.m.shiftCarry(n) {
 		return "shift-carry" + suffix
+	}
+	if s.m.shiftContainerCarry(n, s.storedInto) {
+		return "shift-container-carry-computed" + suffix
 	}
 	nearZero := ""
 	timeNoStd := false
@@ -97,6 +114,26 @@ func (s *c15State) exprSig(n *qNode, count bool) string {
 	})
 	if nearZero != "" {
 		return "intcond-strict-near-zero/" + nearZero + suffix
+	}
+	emptyBetween := false
+	n.walk(func(x *qNode) {
+		if x.Kind == "rowint" && x.Op == "between" && c15EmptyInterval(x) {
+			emptyBetween = true
+		}
+	})
+	if emptyBetween {
+		return "intcond-between-empty-interval" + suffix
+	}
+	beyond := ""
+	n.walk(func(x *qNode) {
+		if f := s.m.Fields[x.Field]; f != nil && x.Kind == "rowint" && c15Inequality(x.Op) {
+			if s.beyond(f, x.P1) || (x.Op == "between" && s.beyond(f, x.P2)) {
+				beyond = x.Op
+			}
+		}
+	})
+	if beyond != "" {
+		return "intcond-at-or-beyond-bitdepth/" + beyond + suffix
 	}
 	if timeNoStd {
 		return "time-nostandard-after-clear" + suffix
@@ -113,6 +150,44 @@ func (s *c15State) exprSig(n *qNode, count bool) string {
 	}
 	return "expr/" + strings.Join(n.kinds(), "+") + suffix
 }
+
+// c15EmptyInterval reports whether a chained comparison denotes no integer at all.
+func c15EmptyInterval(x *qNode) bool {
+	lo, hi := x.P1, x.P2
+	if !x.LoEq {
+		lo++
+	}
+	if !x.HiEq {
+		hi--
+	}
+	return lo > hi
+}
+
+// typeTag names the field class used in mutation/state signatures.
+func (s *c15State) typeTag(f *mField) string {
+	if f.Type == "time" && f.NoStd {
+		if s.env.Nodes > 1 {
+			return "cluster-time-nostandard"
+		}
+		return "time-nostandard"
+	}
+	return f.Type
+}
+
+// beyond reports whether predicate p is at/beyond the bit-depth range of the
+// field; on a cluster the smallest per-shard depth decides (each node keeps its own depth).
+func (s *c15State) beyond(f *mField, p int64) bool {
+	if s.env.Nodes > 1 {
+		return mBeyond(f.minShardDepth(), p)
+	}
+	return f.beyondDepth(p)
+}
+
+func c15Inequality(op string) bool {
+	return op == "<" || op == "<=" || op == ">" || op == ">=" || op == "between"
+}
+
+func (s *c15State) storedInto(field string) bool { return s.muts[field]["Store"] }
 
 // ---- generators
 
@@ -136,6 +211,9 @@ func (s *c15State) leaf() *qNode {
 	case "int":
 		ops := []string{"==", "!=", "<", "<=", ">", ">=", "between", "notnull"}
 		op := ops[rng.Intn(len(ops))]
+		if s.env.Nodes > 1 && (op == "between" || op == "notnull") && !rng.Chance(1, 8) {
+			op = ops[rng.Intn(6)] // forwarded between / != null are C26's known class: keep them rare
+		}
 		pred := func() int64 {
 			if rng.Chance(1, 30) {
 				return []int64{1 << 31, -(1 << 31), 1 << 62, -(1 << 62)}[rng.Intn(4)]
@@ -146,12 +224,38 @@ func (s *c15State) leaf() *qNode {
 		if (op == "<" || op == ">") && (n.P1 == 0 || n.P1 == -1) && !rng.Chance(1, 4) {
 			n.P1 = 1 + int64(rng.Intn(3)) // keep the known near-zero class rare
 		}
+		inside := func() int64 { // strictly inside the range representable at the current bit depth
+			d := f.Depth
+			if s.env.Nodes > 1 {
+				d = f.minShardDepth()
+			}
+			lim := int64(1)<<d - 1
+			if lim <= 1 {
+				return 0
+			}
+			return int64(rng.Intn(int(2*lim-1))) - (lim - 1)
+		}
+		if c15Inequality(op) && s.beyond(f, n.P1) && !rng.Chance(1, 6) {
+			n.P1 = inside() // keep the known beyond-bit-depth class (C14) rare
+			if (op == "<" || op == ">") && (n.P1 == 0 || n.P1 == -1) {
+				n.P1 = 1
+			}
+		}
 		if op == "between" {
 			n.P2 = pred()
 			if n.P2 < n.P1 {
 				n.P1, n.P2 = n.P2, n.P1
 			}
 			n.LoEq, n.HiEq = rng.Bool(), rng.Bool()
+			if (s.beyond(f, n.P1) || s.beyond(f, n.P2)) && !rng.Chance(1, 6) {
+				n.P1, n.P2 = inside(), inside()
+				if n.P2 < n.P1 {
+					n.P1, n.P2 = n.P2, n.P1
+				}
+			}
+		}
+		if op == "between" && c15EmptyInterval(n) && !rng.Chance(1, 5) {
+			n.LoEq, n.HiEq = true, true // keep the known empty-interval class rare
 		}
 		return n
 	case "time":
@@ -165,8 +269,10 @@ func (s *c15State) leaf() *qNode {
 				i, j = j, i
 			}
 			n := &qNode{Kind: "rowtime", Field: name, Row: s.pickRow(f), From: bs[i], To: bs[j]}
-			if rng.Chance(1, 10) {
-				n.To = time.Time{} // open end: executor uses now+1d; all data <= 2024
+			if rng.Chance(1, 10) && f.Quantum[0] == 'Y' {
+				// open end: executor uses now+1d; all data <= 2024. Only for quanta with a year
+				// unit (others make the server walk every day/hour up to today).
+				n.To = time.Time{}
 			}
 			return n
 		}
@@ -227,9 +333,9 @@ func (s *c15State) runQuery(n *qNode, count bool) {
 	sig := s.exprSig(n, count)
 	if (err != nil) != (werr != nil) {
 		if err != nil {
-			s.fail("unexpected-error/"+sig, fmt.Sprintf("%s: server error %q, model expects %d columns", pql, err.Error(), len(want)), pql)
+			s.fail(sig+"#unexpected-error", fmt.Sprintf("%s: server error %q, model expects %d columns", pql, err.Error(), len(want)), pql)
 		} else {
-			s.fail("missing-error/"+sig, fmt.Sprintf("%s: server answered, model expects an error (missing field / Not without existence tracking)", pql), pql)
+			s.fail(sig+"#missing-error", fmt.Sprintf("%s: server answered, model expects an error (missing field / Not without existence tracking)", pql), pql)
 		}
 		return
 	}
@@ -241,17 +347,17 @@ func (s *c15State) runQuery(n *qNode, count bool) {
 	if count {
 		got, ok := res.(uint64)
 		if !ok {
-			s.fail("result-type/"+sig, fmt.Sprintf("%s: result type %T", pql, res), pql)
+			s.fail(sig+"#result-type", fmt.Sprintf("%s: result type %T", pql, res), pql)
 			return
 		}
 		if got != uint64(len(ws)) {
-			s.fail(sig, fmt.Sprintf("%s: count %d, model %d (model columns %s)", pql, got, len(ws), vk.Brief(ws)), pql)
+			s.fail(sig, fmt.Sprintf("%s: count %d, model %d (model columns %s)%s", pql, got, len(ws), vk.Brief(ws), s.localize(n)), pql)
 		}
 		return
 	}
 	got, ok := esrvColumns(res)
 	if !ok {
-		s.fail("result-type/"+sig, fmt.Sprintf("%s: result type %T", pql, res), pql)
+		s.fail(sig+"#result-type", fmt.Sprintf("%s: result type %T", pql, res), pql)
 		return
 	}
 	if len(ws) > 0 {
@@ -264,8 +370,31 @@ func (s *c15State) runQuery(n *qNode, count bool) {
 		if !esrvIsSortedSet(got) {
 			extra = " (result not an ascending duplicate-free column list)"
 		}
-		s.fail(sig, fmt.Sprintf("%s: %s%s; got %s want %s", pql, vk.DiffU64(got, ws), extra, vk.Brief(got), vk.Brief(ws)), pql)
+		s.fail(sig, fmt.Sprintf("%s: %s%s; got %s want %s%s", pql, vk.DiffU64(got, ws), extra, vk.Brief(got), vk.Brief(ws), s.localize(n)), pql)
 	}
+}
+
+// localize re-queries sub-expressions bottom-up and describes the smallest one
+// that disagrees with the model (triage aid; not an oracle).
+func (s *c15State) localize(n *qNode) string {
+	for _, k := range n.Kids {
+		if d := s.localize(k); d != "" {
+			return d
+		}
+	}
+	want, werr := s.m.eval(n)
+	res, err := s.env.query1(s.index, n.PQL())
+	if err != nil || werr != nil {
+		if (err != nil) != (werr != nil) {
+			return fmt.Sprintf(" | smallest disagreeing sub-expression %s: server err=%v model err=%v", n.PQL(), err, werr)
+		}
+		return ""
+	}
+	got, _ := esrvColumns(res)
+	if ws := want.sorted(); !vk.EqualU64(got, ws) {
+		return fmt.Sprintf(" | smallest disagreeing sub-expression %s: got %s want %s", n.PQL(), vk.Brief(got), vk.Brief(ws))
+	}
+	return ""
 }
 
 func (s *c15State) boolResult(pql, sig string, want bool, check bool) bool {
@@ -273,16 +402,16 @@ func (s *c15State) boolResult(pql, sig string, want bool, check bool) bool {
 	s.log = append(s.log, pql)
 	s.r.Eval(1)
 	if err != nil {
-		s.fail("unexpected-error/"+sig, fmt.Sprintf("%s: server error %q", pql, err.Error()), pql)
+		s.fail(sig+"#unexpected-error", fmt.Sprintf("%s: server error %q", pql, err.Error()), pql)
 		return false
 	}
 	got, ok := res.(bool)
 	if !ok {
-		s.fail("result-type/"+sig, fmt.Sprintf("%s: result type %T", pql, res), pql)
+		s.fail(sig+"#result-type", fmt.Sprintf("%s: result type %T", pql, res), pql)
 		return false
 	}
 	if check && got != want {
-		s.fail("return/"+sig, fmt.Sprintf("%s: returned %v, documented result is %v", pql, got, want), pql)
+		s.fail(sig+"#return", fmt.Sprintf("%s: returned %v, documented result is %v", pql, got, want), pql)
 		return false
 	}
 	return true
@@ -295,7 +424,7 @@ func (s *c15State) setOne(f *mField) {
 		v := f.Min + int64(s.rng.Intn(int(f.Max-f.Min)+1))
 		want := s.m.setValue(f, col, v, true)
 		s.r.Cover("mut:Set:int")
-		s.boolResult(esrvSetValuePQL(f, col, v), "Set/int", want, true)
+		s.boolResult(esrvSetValuePQL(f, col, v), "int/Set", want, true)
 		return
 	}
 	row := s.pickRow(f)
@@ -309,7 +438,7 @@ func (s *c15State) setOne(f *mField) {
 	want := s.m.setBit(f, row, col, ts, true)
 	s.mark(f.Name, "Set")
 	s.r.Cover("mut:Set:" + f.Type)
-	s.boolResult(esrvSetPQL(f, row, col, ts), "Set/"+f.Type, want, true)
+	s.boolResult(esrvSetPQL(f, row, col, ts), s.typeTag(f)+"/Set", want, true)
 }
 
 func (s *c15State) importSome(f *mField, n int) {
@@ -330,7 +459,7 @@ func (s *c15State) importSome(f *mField, n int) {
 		s.log = append(s.log, fmt.Sprintf("ImportValue(%s cols=%v vals=%v)", f.Name, cols, vals))
 		s.r.Cover("mut:ImportValue")
 		if err := s.env.importValues(s.index, f.Name, cols, vals, false); err != nil {
-			s.fail("unexpected-error/ImportValue", "ImportValue: "+err.Error(), "")
+			s.fail("int/ImportValue#unexpected-error", "ImportValue: "+err.Error(), "")
 		}
 		return
 	}
@@ -357,7 +486,7 @@ func (s *c15State) importSome(f *mField, n int) {
 	s.log = append(s.log, fmt.Sprintf("Import(%s rows=%v cols=%v ts=%v)", f.Name, rows, cols, ts))
 	s.r.Cover("mut:Import:" + f.Type)
 	if err := s.env.importBits(s.index, f.Name, rows, cols, ts, false); err != nil {
-		s.fail("unexpected-error/Import/"+f.Type, "Import: "+err.Error(), "")
+		s.fail(s.typeTag(f)+"/Import#unexpected-error", "Import: "+err.Error(), "")
 	}
 }
 
@@ -398,11 +527,7 @@ func (s *c15State) mutate() {
 		want := s.m.clearBit(f, row, col)
 		s.mark(name, "Clear")
 		s.r.Cover("mut:Clear:" + f.Type)
-		sig := "Clear/" + f.Type
-		if f.Type == "time" && f.NoStd {
-			sig = "Clear/time-nostandard"
-		}
-		s.boolResult(esrvClearPQL(f, row, col), sig, want, true)
+		s.boolResult(esrvClearPQL(f, row, col), s.typeTag(f)+"/Clear", want, true)
 	case k < 7: // ClearRow
 		if f.Type == "int" {
 			s.setOne(f)
@@ -412,7 +537,7 @@ func (s *c15State) mutate() {
 		want := s.m.clearRow(f, row)
 		s.mark(name, "ClearRow")
 		s.r.Cover("mut:ClearRow:" + f.Type)
-		s.boolResult(esrvClearRowPQL(f, row), "ClearRow/"+f.Type, want, true)
+		s.boolResult(esrvClearRowPQL(f, row), s.typeTag(f)+"/ClearRow", want, true)
 	case k < 9: // Store into a set field
 		var sets []*mField
 		for _, n := range s.m.Order {
@@ -429,7 +554,7 @@ func (s *c15State) mutate() {
 		for try := 0; ; try++ {
 			src = s.expr(1 + rng.Intn(3))
 			_, err := s.m.eval(src)
-			if err == nil && !s.m.shiftCarry(src) {
+			if err == nil && !s.m.shiftCarry(src) && !s.m.shiftContainerCarry(src, s.storedInto) {
 				break
 			}
 			if try > 20 {
@@ -440,6 +565,12 @@ func (s *c15State) mutate() {
 		bad := false
 		src.walk(func(x *qNode) {
 			if x.Kind == "rowint" && (x.Op == "<" || x.Op == ">") && (x.P1 == 0 || x.P1 == -1) {
+				bad = true
+			}
+			if x.Kind == "rowint" && x.Op == "between" && c15EmptyInterval(x) {
+				bad = true
+			}
+			if ff := s.m.Fields[x.Field]; ff != nil && x.Kind == "rowint" && c15Inequality(x.Op) && (s.beyond(ff, x.P1) || (x.Op == "between" && s.beyond(ff, x.P2))) {
 				bad = true
 			}
 		})
@@ -494,13 +625,12 @@ func (s *c15State) finalBattery() {
 		if s.failed {
 			return
 		}
-		sigBase := "state/" + f.Type
-		if f.Type == "time" && f.NoStd {
-			sigBase = "state/time-nostandard"
-		}
-		sigBase += "/after:" + s.mutSet(name)
+		sigBase := s.typeTag(f) + "/state/after:" + s.mutSet(name)
 		if f.Type == "int" {
 			n := &qNode{Kind: "rowint", Field: name, Op: "notnull"}
+			if s.env.Nodes > 1 {
+				n = &qNode{Kind: "rowint", Field: name, Op: ">=", P1: f.Min} // forwarded "!= null" is C26's known class
+			}
 			s.checkRow(n, sigBase)
 			continue
 		}
@@ -524,7 +654,7 @@ func (s *c15State) checkRow(n *qNode, sig string) {
 	res, err := s.env.query1(s.index, pql)
 	s.r.Eval(1)
 	if err != nil {
-		s.fail("unexpected-error/"+sig, fmt.Sprintf("%s: %v", pql, err), pql)
+		s.fail(sig+"#unexpected-error", fmt.Sprintf("%s: %v", pql, err), pql)
 		return
 	}
 	got, _ := esrvColumns(res)
@@ -705,7 +835,7 @@ func TestVerifC15(t *testing.T) {
 			f := s.m.Fields["a"]
 			for _, c := range []uint64{65535, mSW - 1, mSW, 2*mSW - 2, 3*mSW - 1} {
 				s.m.setBit(f, 42, c, nil, true)
-				s.boolResult(esrvSetPQL(f, 42, c, nil), "Set/set", true, false)
+				s.boolResult(esrvSetPQL(f, 42, c, nil), "set/Set", true, false)
 			}
 			for n := 1; n <= 3 && !s.failed; n++ {
 				leaf := &qNode{Kind: "row", Field: "a", Row: 42}
@@ -725,9 +855,9 @@ func TestVerifC15(t *testing.T) {
 	if r.Thorough() {
 		steps = 60
 	}
-	nq, nt := 400, 60000
+	nq, nt := 400, 40000
 	if nodes > 1 {
-		nq, nt = 40, 3000
+		nq, nt = 40, 1000
 	}
 	n := r.N(nq, nt)
 	r.Cases("ds", n, func(i int, id string, rng *vk.Rand) {
